@@ -169,10 +169,11 @@ func (m *ModulusBasic) modInvOdd(out, x *Nat) ct.Bool {
 func (m *ModulusBasic) modInvEven(out, x *Nat) ct.Bool {
 	ok := x.IsNonZero() & x.Coprime(m.Nat())
 	if ok == ct.True {
-		(*saferith.Nat)(out).SetBig(
+		// SetBig on a used Nat keeps its stale high limbs and reduction tag: fill a fresh Nat, then copy.
+		out.Set((*Nat)(new(saferith.Nat).SetBig(
 			new(big.Int).ModInverse((*saferith.Nat)(x).Big(), (*saferith.Modulus)(m).Big()),
 			(*saferith.Modulus)(m).BitLen(),
-		)
+		)))
 	}
 	return ok
 }
@@ -241,7 +242,8 @@ func (m *ModulusBasic) modExpEven(out, b *Nat, exp *big.Int) {
 
 	result := new(big.Int).Exp(baseBig, exp, modBig)
 	bitlen := (*saferith.Modulus)(m).BitLen()
-	(*saferith.Nat)(out).SetBig(result, bitlen)
+	// SetBig on a used Nat keeps its stale high limbs and reduction tag: fill a fresh Nat, then copy.
+	out.Set((*Nat)(new(saferith.Nat).SetBig(result, bitlen)))
 }
 
 // ModExp sets out = base^exp (mod m).
